@@ -81,7 +81,7 @@ theorem idempotent_full_refuted :
   have h1 := h [gene (ranged 0 2 false true), gene (ranged 2 4 true true), gene (ranged 4 5 true false),
       gene (joined [ranged 6 15 false false, between 6])]
     [gene (ranged 0 5 false false), gene (ranged 6 15 false false), gene (between 6)] (by rfl)
-  have h2 := congrArg (fun (o : Outcome) => match o with | Outcome.ok t => t.length | _ => 0) h1
+  have h2 := congrArg (fun (o : RepairOutcome) => match o with | RepairOutcome.ok t => t.length | _ => 0) h1
   revert h2
   decide
 
@@ -107,7 +107,7 @@ theorem unchanged_full_refuted :
     ¬ (∀ t : Table, Table.noMergeablePair t = true → repair t = .ok t) := by
   intro h
   have h1 := h [gene (compl (ranged 0 3 false false)), gene (compl (ranged 5 8 false false))] (by decide)
-  have h2 := congrArg (fun (o : Outcome) => match o with | Outcome.ok t => t.length | _ => 0) h1
+  have h2 := congrArg (fun (o : RepairOutcome) => match o with | RepairOutcome.ok t => t.length | _ => 0) h1
   revert h2
   decide
 
@@ -116,7 +116,7 @@ theorem unchanged_site_refuted :
     ¬ (∀ t : Table, Table.noMergeablePair t = true → repair t = .ok t) := by
   intro h
   have h1 := h [gene (ranged 0 3 false false), gene (between 3)] (by decide)
-  have h2 := congrArg (fun (o : Outcome) => match o with | Outcome.ok t => t.length | _ => 0) h1
+  have h2 := congrArg (fun (o : RepairOutcome) => match o with | RepairOutcome.ok t => t.length | _ => 0) h1
   revert h2
   decide
 
@@ -201,7 +201,7 @@ theorem keys_full_refuted :
   intro h
   have h1 := h ⟨"gene", ranged 0 3 false true, [["note", "a b"]]⟩ ⟨"gene", ranged 3 6 true false, [["note", "a", "b"]]⟩
     (by decide) rfl rfl
-  have h2 := congrArg (fun (o : Outcome) => match o with | Outcome.ok t => t.length | _ => 0) h1
+  have h2 := congrArg (fun (o : RepairOutcome) => match o with | RepairOutcome.ok t => t.length | _ => 0) h1
   revert h2
   decide
 
@@ -284,8 +284,8 @@ theorem restore_full_refuted :
   intro h
   have h1 := h ⟨[gene (compl (ranged 0 6 false false))], [97, 99, 103, 116, 97, 99]⟩ 3 (by decide) (by decide)
     (by decide) (by decide)
-  have h2 := congrArg (fun (o : Outcome) => match o with
-    | Outcome.ok t => t.map (fun (f : Feature) => match f.loc with | compl (ranged _ _ _ _) => true | _ => false)
+  have h2 := congrArg (fun (o : RepairOutcome) => match o with
+    | RepairOutcome.ok t => t.map (fun (f : Feature) => match f.loc with | compl (ranged _ _ _ _) => true | _ => false)
     | _ => []) h1
   revert h2
   decide
@@ -299,7 +299,7 @@ theorem restore_order_full_refuted :
   intro h
   have h1 := h ⟨[⟨"CDS", ranged 1 2 true true, []⟩, gene (ranged 1 3 false false)], [97, 99, 103, 116]⟩ [1, 2]
     (by decide) (by decide) (by decide)
-  have h2 := congrArg (fun (o : Outcome) => match o with | Outcome.ok t => t.map Feature.key | _ => []) h1
+  have h2 := congrArg (fun (o : RepairOutcome) => match o with | RepairOutcome.ok t => t.map Feature.key | _ => []) h1
   revert h2
   decide
 
